@@ -126,6 +126,44 @@ def run(ctx: Ctx):
                                "what": f"Item.from_value({val!r}) -> {it._sml_type} holding {it.value!r}"})
         except Exception as exc:  # noqa: BLE001
             ctx.violation({"check": "from-value", "value": repr(val), "error": type(exc).__name__, "what": f"Item.from_value({val!r}) raised {exc!r}"})
+    # values of different python types that compare (and hash) equal -- 1 / True / 1.0, 0 / False / 0.0 / -0.0 -- in every order:
+    # the type and bytes chosen for one must not depend on which of the others was seen before (caches keyed by equality)
+    import itertools
+    import struct
+
+    def expect(val):
+        if isinstance(val, bool):
+            return "BOOLEAN", b"\x25\x01" + bytes([1 if val else 0])
+        return "U1", b"\xa5\x01" + bytes([val])
+
+    nperm = 0
+    for group in ([1, True, 1.0], [0, False, 0.0, -0.0]):
+        for perm in itertools.permutations(group):
+            nperm += 1
+            for x in perm:
+                try:
+                    it = Item.from_value(x)
+                    got = (it._sml_type, bytes(it.encode()))
+                except Exception as exc:  # noqa: BLE001
+                    ctx.violation({"check": "from-value-order", "order": repr(perm), "error": type(exc).__name__,
+                                   "what": f"Item.from_value({x!r}) in the order {perm!r} raised {exc!r}"})
+                    continue
+                if not isinstance(x, float) and got != expect(x):     # the property does not prescribe the type chosen for a float
+                    ctx.violation({"check": "from-value-order", "order": repr(perm), "value": repr(x), "got": [got[0], got[1].hex()],
+                                   "want": [expect(x)[0], expect(x)[1].hex()],
+                                   "what": f"Item.from_value({x!r}) in the order {perm!r} gives {got[0]} {got[1].hex()} instead of "
+                                           f"{expect(x)[0]} {expect(x)[1].hex()}"})
+            members = [x for x in perm if not isinstance(x, float)]
+            try:
+                got_l = bytes(Item.from_value(list(members)).encode())
+                want_l = b"\x01" + bytes([len(members)]) + b"".join(expect(x)[1] for x in members)
+                if got_l != want_l:
+                    ctx.violation({"check": "from-value-order", "order": repr(perm), "value": repr(members), "got": got_l.hex(), "want": want_l.hex(),
+                                   "what": f"Item.from_value({members!r}) after {perm!r} encodes to {got_l.hex()} instead of {want_l.hex()}"})
+            except Exception as exc:  # noqa: BLE001
+                ctx.violation({"check": "from-value-order", "order": repr(perm), "error": type(exc).__name__,
+                               "what": f"Item.from_value({members!r}) after {perm!r} raised {exc!r}"})
+    ctx.extra["equal_value_orders"] = nperm
     ctx.evaluations += len(vec) + 2 * len(nlb) + len(ln) + len(nar) + len(plain)
     ctx.nontrivial += len(vec) + len(nar)
     ctx.sample({"item": vec[7]["item"], "bytes": bytes(vec[7]["bytes"]).hex()})
